@@ -39,6 +39,8 @@ def swarm(prop, r, tier):
     cfg["mixed_scale"] = prop in ("C01", "C02", "C03", "C07", "C09") and R.chance(0.1)
     if prop in ("C01", "C02", "C07") and R.chance(0.03):
         cfg["names"] = "summary"
+    if prop in ("C14", "C16", "C15", "C12", "C17") and R.chance(0.03):
+        cfg["names"] = "markup"
     cfg["tables2d_general"] = R.pick([0.3, 0.6])
     cfg["inf_limits"] = R.chance(0.15)
     cfg["via_file"] = R.pick([0.0, 0.0, 0.25])
